@@ -1,1 +1,65 @@
-//! harness bodies: actor
+//! harness bodies: actor.rs (child module of `actor`)
+use super::*;
+use crate::verif_incrate::src::{ck, cv, Src};
+
+/// C14: one step of the open/close counting from an arbitrary state of one document
+/// (not open, or open with 1..=3 handles and sync on/off); a second document is never touched.
+pub fn open_replicas_step<S: Src>(s: &mut S) {
+    let ns = NamespaceId::from(&[1u8; 32]);
+    let other = NamespaceId::from(&[2u8; 32]);
+    let mut st = OpenReplicas::default();
+    let pre_open = s.bool();
+    let h0 = s.u8() as usize;
+    s.assume(h0 >= 1 && h0 <= 3);
+    let sync0 = s.bool();
+    if pre_open {
+        st.0.insert(ns, OpenReplica { info: ReplicaInfo::new(Capability::Read(ns)), sync: sync0, handles: h0 });
+    }
+    let op = s.u8();
+    s.assume(op < 3);
+    match op {
+        0 => {
+            let opt_sync = s.bool();
+            let mut cb_calls = 0usize;
+            let r = st.open_with(ns, OpenOpts { sync: opt_sync, subscribe: None }, || {
+                cb_calls += 1;
+                Ok(ReplicaInfo::new(Capability::Read(ns)))
+            });
+            ck!(s, r.is_ok(), "opening a loadable document succeeds");
+            ck!(s, cb_calls == if pre_open { 0 } else { 1 }, "the store is asked for the document only on the first open");
+            let (handles, sync) = match st.get_mut(&ns) {
+                Ok(r) => (r.handles, r.sync),
+                Err(e) => {
+                    std::mem::forget(e);
+                    (0, false)
+                }
+            };
+            cv!(s, pre_open && sync0 && !opt_sync, "open_replicas_step: additional open without sync on a syncing document");
+            ck!(s, handles == if pre_open { h0 + 1 } else { 1 }, "every open adds exactly one handle");
+            ck!(s, sync == if pre_open { sync0 || opt_sync } else { opt_sync }, "enabling sync is sticky across additional opens");
+        }
+        1 => {
+            let closed = st.close(ns);
+            let want_closed = !pre_open || h0 == 1;
+            cv!(s, pre_open && h0 > 1, "open_replicas_step: close with handles remaining");
+            cv!(s, !pre_open, "open_replicas_step: close of a document that is not open");
+            ck!(s, closed == want_closed, "close reports whether the document is closed afterwards");
+            ck!(s, st.is_open(&ns) == (pre_open && h0 > 1), "a document stays open exactly while it holds at least one handle");
+            if pre_open && h0 > 1 {
+                let r = st.get_mut(&ns).ok().map(|r| (r.handles, r.sync));
+                ck!(s, r == Some((h0 - 1, sync0)), "every close of an open document releases exactly one handle");
+            }
+        }
+        _ => {
+            let e = st.ensure_open(&ns);
+            ck!(s, e.is_ok() == pre_open, "operations on a document succeed only while it is open");
+            std::mem::forget(e);
+            let g = st.get_mut(&ns).map(|r| (r.handles, r.sync));
+            let got = g.as_ref().ok().copied();
+            ck!(s, got == if pre_open { Some((h0, sync0)) } else { None }, "looking a document up does not change it");
+            std::mem::forget(g);
+        }
+    }
+    ck!(s, !st.is_open(&other), "other documents are unaffected");
+    std::mem::forget(st);
+}
